@@ -39,8 +39,16 @@
           before `q`: C03_HS_prefix_complete (no filter: C03_HS_prefix_complete_nofilter);
         - bucket search: the bucket tuples all have the size of the search and are non-decreasing for
           `Bucket.__lt__`, C03_HS_bucket_sorted; prefix completeness C03_HS_bucket_prefix_complete.
-  NOT proved: recursive grammars (the statement is false there), TTCFGs that thread a state, the
-  unambiguous-grammar machine.
+    * UNAMBIGUOUS-GRAMMAR MACHINE (u_heap_search.py after fix 7721229), section "unambiguous machine":
+        - every heap (non-terminals and the start heap) valid in every reachable state: C03_HS_U_heaps_valid,
+          C03_HS_U_query_heaps, C03_HS_U_pop_max;
+        - acyclic unambiguous grammars with several start symbols and start weights: the order invariant
+          (C03_HS_U_order_step), BEST-FIRST ORDER for every fuel and prefix (C03_HS_U_sorted,
+          C03_HS_U_sorted_prob, C03_HS_U_sorted_probU in terms of `U.probU`; bucket search:
+          C03_HS_U_bucket_sorted), PREFIX COMPLETENESS for every prefix (C03_HS_U_prefix_complete,
+          C03_HS_U_prefix_complete_probU), complete runs: C03_HS_U_more_probable_before.
+  NOT proved: recursive grammars (the statement is false there), TTCFGs that thread a state, thresholds
+  of the unambiguous machine.
 -/
 import PS.Model.Enum.HeapSearch
 import PS.Proofs.Enum.Heapq
@@ -54,6 +62,12 @@ import PS.Proofs.Enum.HSOrderCheck
 import PS.Proofs.Enum.HSSorted
 import PS.Proofs.Enum.HSPrologueTotal
 import PS.Proofs.Enum.GInst
+import PS.Proofs.Enum.UHeaps
+import PS.Proofs.Enum.UOrderCheck
+import PS.Proofs.Enum.UProb
+import PS.Proofs.Enum.UCompleteRun
+import PS.Proofs.Enum.UPrefix
+import PS.Proofs.Enum.UBucket
 namespace PS.C03HS
 open PS PS.G PS.HS
 
@@ -425,5 +439,252 @@ example : ∀ k g' out b, take bE 50 k (Gen.new oG) [] = some (g', out, b) →
 example : (take bE 50 10 (Gen.new oG) []).map (fun r => (r.2.1.map (bucketOf bE), r.2.2)) =
     some ([[0, 1, 0], [0, 1, 2], [1, 1, 1], [1, 1, 1], [2, 1, 0]], true) := by decide +kernel
 end Generic
+
+/-! ## unambiguous machine -/
+section UMachine
+open PS.UHS
+variable {U π : Type} [DecidableEq U]
+
+/-- **every heap of the unambiguous-grammar machine is valid in every reachable state**:
+    `UHS.HInv E s` — every `heaps[nt]` and the start heap `_start_heap` satisfy heapq's invariant.
+    It holds for the fresh enumerator and every `next(generator)` keeps it: any grammar, any filter,
+    any strict weak order of priorities (the code after fix 7721229, `kway = true`) -/
+theorem C03_HS_U_heaps_valid (E : UHS.Env U π) (hk : E.kway = true) (w : Heapq.WeakOrder E.ops.lt) (fuel : Nat) :
+    UHS.HInv E (UHS.St.empty E.G) ∧
+    ∀ (k : Nat) (s s' : UHS.St U π) (r : Option Prog), UHS.HInv E s → UHS.next E fuel k s = some (s', r) → UHS.HInv E s' :=
+  ⟨hinv_empty E, fun k _ _ _ hs h => hs.next hk w k h⟩
+
+/-- `query(S, program)` keeps the heaps valid -/
+theorem C03_HS_U_query_heaps (E : UHS.Env U π) (hk : E.kway = true) (w : Heapq.WeakOrder E.ops.lt) (n : Nat)
+    (s s' : UHS.St U π) (nt : UHS.UNT U) (p r : Option Prog) (hs : UHS.HInv E s)
+    (h : UHS.query E n s nt p = some (s', r)) : UHS.HInv E s' :=
+  big_hinv E hk w (big_of_query E h) hs
+
+/-- hence every pop made by `query` returns an element of minimal priority of its heap, and the pop
+    of the start heap in `start_query` returns an entry of minimal adjusted priority (heap search: of
+    maximal probability `start weight × probability from the start symbol`) -/
+theorem C03_HS_U_pop_max (E : UHS.Env U π) (w : Heapq.WeakOrder E.ops.lt) (s : UHS.St U π) (hs : UHS.HInv E s) :
+    (∀ (nt : UHS.UNT U) (e : π × Prog) (h' : List (π × Prog)),
+      Heapq.pop (UHS.ltE E.ops) (s.heapOf nt) = some (e, h') → ∀ y ∈ s.heapOf nt, E.ops.lt y.1 e.1 = false) ∧
+    (∀ (e : π × Prog × UHS.UNT U) (h' : List (π × Prog × UHS.UNT U)),
+      Heapq.pop (UHS.ltS E.ops) s.startHeap = some (e, h') → ∀ y ∈ s.startHeap, E.ops.lt y.1 e.1 = false) :=
+  ⟨fun nt _ _ hp => (Heapq.pop_isHeap (UHS.ltE_weakOrder E.ops w) _ _ _ (hs.1 nt) hp).2,
+   fun _ _ hp => (Heapq.pop_isHeap (UHS.ltS_weakOrder E.ops w) _ _ _ hs.2 hp).2⟩
+
+/-! non-vacuity: the three-start grammar of finding C02-F2, heap search and bucket search -/
+def uT : Ty := .base "int"
+def u0 : UHS.UNT Nat := (uT, 0)
+def u1 : UHS.UNT Nat := (uT, 1)
+def u2 : UHS.UNT Nat := (uT, 2)
+def uPlus : Sym := Sym.prim "+" (.arrow uT (.arrow uT uT))
+def uOne : Sym := Sym.prim "1" uT
+def uV0 : Sym := Sym.var 0 uT
+/-- `S0 → 1 | var0`, `S1 → + S0 S0`, `S2 → + S0 S1 | + S1 S0`; three start symbols; 22 programs -/
+def uG : UG Nat :=
+  { starts := [(u2, 1/2), (u0, 1/4), (u1, 1/4)],
+    rules := [(u1, [(uPlus, [([u0, u0], 1)])]), (u0, [(uOne, [([], 1/4)]), (uV0, [([], 3/4)])]),
+              (u2, [(uPlus, [([u0, u1], 3/5), ([u1, u0], 2/5)])])] }
+def uE : UHS.Env Nat Rat := { G := uG, ops := UHS.probOps 0, filter := fun _ => true, kway := true }
+
+theorem uE_weak : Heapq.WeakOrder uE.ops.lt := by
+  constructor
+  · intro a b h
+    simp only [uE, UHS.probOps, decide_eq_true_eq, decide_eq_false_iff_not, Rat.not_lt] at h ⊢
+    exact Rat.le_of_lt h
+  · intro a b c h1 h2
+    simp only [uE, UHS.probOps, decide_eq_false_iff_not, Rat.not_lt] at h1 h2 ⊢
+    exact Rat.le_trans h2 h1
+
+example : ∀ k s s' r, UHS.HInv uE s → UHS.next uE 60 k s = some (s', r) → UHS.HInv uE s' :=
+  (C03_HS_U_heaps_valid uE rfl uE_weak 60).2
+example : (UHS.take uE 60 30 (UHS.St.empty uG) []).map (fun r => (r.2.1.length, r.2.2)) = some (22, true) := by
+  decide +kernel
+
+/-- **the order invariant of a non-terminal is kept by every call** (acyclic unambiguous grammar, no
+    threshold, no filter; `UHS.OHyp`: `rank` decreases along the alternatives, strict weak order,
+    `combine` monotone on the priorities of derivations, alternatives unambiguous, dict keys distinct).
+    `UHS.NTInv E s nt`: `succ[nt]` is one chain from the sentinel; its first element is
+    `max_priority[nt]` (the root of the heap built in phase 2 of `__init_non_terminal__` is the first
+    strict minimum of the scan of phase 1: tie-breaking of heapq); (I1) the arguments of every program
+    ever pushed for `nt` were popped for the non-terminals of its alternative `_keys[nt][program]`;
+    (I4) no heap element is better than a popped program, a recorded successor is not better than its
+    predecessor.  Under the precondition "the key was popped for `nt`" (`UHS.OPre`), `query(nt, key)`
+    keeps it for `nt` and for every non-terminal of smaller rank (`UHS.Below`), and returns a program
+    that is not better than the key. -/
+theorem C03_HS_U_order_step (E : UHS.Env U π) (rank : UHS.UNT U → Nat) (Good : π → Prop) (H : OHyp E rank Good)
+    (n : Nat) (s s' : UHS.St U π) (nt : UHS.UNT U) (p r : Option Prog) (hb : Base E s)
+    (hpre : OPre E rank (.query nt p) s) (h : UHS.query E n s nt p = some (s', r)) :
+    Below E rank (rank nt) s' ∧ NTInv E s' nt ∧ ∀ q, r = some q → ∀ k, p = some k → UHS.LE E nt k q := by
+  obtain ⟨a, b, d, _⟩ := big_order H (big_of_query E h) hb trivial trivial hpre
+  exact ⟨a, b.1, d⟩
+
+/-- **BEST-FIRST ORDER of the unambiguous-grammar machine** on ACYCLIC unambiguous grammars with SEVERAL
+    START SYMBOLS and start weights (every fuel, every number of steps): the keys
+    `adjust_priority_for_start(priority from the start symbol, start)` of the yielded programs
+    (`UHS.StartKey`; heap search: `start weight × probability from the start symbol`) are
+    non-decreasing for `<` — for heap search the probabilities are non-increasing.
+    `UHS.RHyp` = `OHyp` + the start languages are disjoint, `G.starts` is a set, no filter,
+    `adjust_priority_for_start` is monotone; all decidable on a literal grammar (`UHS.rhyp_prob`).
+    This is where findings C02-F2 / C03-F1 lived: the theorem is about the code after fix 7721229
+    (`kway = true`), the start heap being a k-way merge of the sorted enumerations of the start symbols. -/
+theorem C03_HS_U_sorted (E : UHS.Env U π) (rank : UHS.UNT U → Nat) (Good : π → Prop) (R : RHyp E rank Good)
+    (fuel k : Nat) (s' : UHS.St U π) (out : List Prog) (b : Bool)
+    (h : UHS.take E fuel k (UHS.St.empty E.G) [] = some (s', out, b)) :
+    out.Pairwise (fun p q => ∀ kp kq, StartKey E p kp → StartKey E q kq → E.ops.lt kq kp = false) :=
+  take_sorted R fuel k s' out b h
+
+/-- heap search (`UHeapSearch`, threshold 0): the yielded probabilities are non-increasing -/
+theorem C03_HS_U_sorted_prob (E : UHS.Env U Rat) (rank : UHS.UNT U → Nat) (hops : E.ops = UHS.probOps 0)
+    (R : RHyp E rank (fun v : Rat => 0 ≤ v)) (fuel k : Nat) (s' : UHS.St U Rat) (out : List Prog) (b : Bool)
+    (h : UHS.take E fuel k (UHS.St.empty E.G) [] = some (s', out, b)) :
+    out.Pairwise (fun p q => ∀ nt w pr nt' w' pr', UHS.startW E nt = some w → HasPrio E p nt pr →
+      UHS.startW E nt' = some w' → HasPrio E q nt' pr' → pr' * w' ≤ pr * w) := by
+  refine (C03_HS_U_sorted E rank _ R fuel k s' out b h).imp ?_
+  intro p q hpq nt w pr nt' w' pr' hw hpr hw' hpr'
+  have := hpq (E.ops.adjust pr w) (E.ops.adjust pr' w') ⟨nt, w, pr, hw, hpr, rfl⟩ ⟨nt', w', pr', hw', hpr', rfl⟩
+  rw [hops] at this
+  simpa [UHS.probOps, Rat.not_lt] using this
+
+/-- **BEST-FIRST ORDER IN TERMS OF THE SPECIFICATION**: on an acyclic unambiguous grammar the probabilities
+    `U.probU` (PS/Model/Prob.lean: weight of the start symbol × product of the rule weights of the unique
+    derivation) of the programs yielded by `UHeapSearch` are non-increasing — every fuel, every prefix,
+    several start symbols.  (`UHS.startKey_probU`: the key of the start heap is `U.probU`.) -/
+theorem C03_HS_U_sorted_probU (E : UHS.Env U Rat) (rank : UHS.UNT U → Nat) (hops : E.ops = UHS.probOps 0)
+    (R : RHyp E rank (fun v : Rat => 0 ≤ v)) (hkeys : ∀ nt F, ((UHS.altsOf E nt F).map (·.1)).Nodup) (d0 : UHS.UNT U)
+    (hun : ∀ p, PS.U.unambiguousOn (E.G.toUCFG d0) p = true) (fuel k : Nat) (s' : UHS.St U Rat) (out : List Prog) (b : Bool)
+    (h : UHS.take E fuel k (UHS.St.empty E.G) [] = some (s', out, b)) :
+    out.Pairwise (fun p q => PS.U.probU (E.G.toUCFG d0) E.G.toTags q ≤ PS.U.probU (E.G.toUCFG d0) E.G.toTags p) := by
+  have hsound := ((sinv_empty E).take R.ohyp.ghyp k (by intro q hq; cases hq) h).2
+  refine (C03_HS_U_sorted_prob E rank hops R fuel k s' out b h).imp_of_mem ?_
+  intro p q hp hq hpq
+  obtain ⟨nt, w, hw, pr, hpr⟩ := hsound p hp
+  obtain ⟨nt', w', hw', pr', hpr'⟩ := hsound q hq
+  rw [startKey_probU E 0 hops hkeys d0 p (hun p) nt w pr hw hpr,
+    startKey_probU E 0 hops hkeys d0 q (hun q) nt' w' pr' hw' hpr']
+  exact hpq nt w pr nt' w' pr' hw hpr hw' hpr'
+
+/-- **every strictly more probable program was yielded before** (complete runs): when the generator has
+    stopped (it does: `C02_HS_U_full`), a member `p` that is strictly more probable than a yielded `q`
+    occurs before `q` -/
+theorem C03_HS_U_more_probable_before (E : UHS.Env U Rat) (rank : UHS.UNT U → Nat) (hops : E.ops = UHS.probOps 0)
+    (R : RHyp E rank (fun v : Rat => 0 ≤ v)) (hnf : ∀ p, E.filter p = true) (hkeys : ∀ nt F, ((UHS.altsOf E nt F).map (·.1)).Nodup) (d0 : UHS.UNT U)
+    (hun : ∀ p, PS.U.unambiguousOn (E.G.toUCFG d0) p = true) (fuel k : Nat) (s' : UHS.St U Rat) (l1 l2 : List Prog)
+    (q p : Prog) (h : UHS.take E fuel k (UHS.St.empty E.G) [] = some (s', l1 ++ q :: l2, true))
+    (hp : PS.U.genU (E.G.toUCFG d0) p = true)
+    (hlt : PS.U.probU (E.G.toUCFG d0) E.G.toTags q < PS.U.probU (E.G.toUCFG d0) E.G.toTags p) : p ∈ l1 := by
+  have hsorted := C03_HS_U_sorted_probU E rank hops R hkeys d0 hun fuel k s' _ true h
+  obtain ⟨nt, w, hw, hd⟩ := (derStart_iff_genU E d0 p).mpr hp
+  have hmem : p ∈ l1 ++ q :: l2 := take_complete R fuel k s' _ h p nt w hw hd (PS.HG.clean_of_all E.filter hnf p)
+  rcases List.mem_append.mp hmem with h1 | h2
+  · exact h1
+  · exfalso
+    have hpw := (List.pairwise_append.mp hsorted).2.1
+    rcases List.mem_cons.mp h2 with rfl | h3
+    · exact absurd hlt (Rat.lt_irrefl)
+    · have := (List.pairwise_cons.mp hpw).1 p h3
+      exact absurd hlt (Rat.not_lt.mpr this)
+
+/-- **PREFIX COMPLETENESS** of the unambiguous-grammar machine (acyclic unambiguous grammars, several start
+    symbols, no threshold, no filter; every fuel, every prefix of the run, stopped or not): once a program
+    `q` has been yielded, every member whose key is strictly better than the key of `q` has been yielded.
+    Proof: `UHS.dominated` — in every quiescent state every derivable program that was not popped for a
+    non-terminal is not better than some element of its heap (induction on the rank; a walk along the
+    successor chains of the argument positions, measured by the chain steps left), hence nothing better
+    than a popped program is left (`UHS.prefixOK_all`); at the start heap, the entry of a start symbol is
+    not worse than anything not yet taken from it and not better than anything taken (`UHS.OG.heap_ge`). -/
+theorem C03_HS_U_prefix_complete (E : UHS.Env U π) (rank : UHS.UNT U → Nat) (Good : π → Prop) (R : RHyp E rank Good)
+    (hnf : ∀ p, E.filter p = true) (fuel k : Nat) (s' : UHS.St U π) (out : List Prog) (b : Bool)
+    (h : UHS.take E fuel k (UHS.St.empty E.G) [] = some (s', out, b)) (p q : Prog) (hq : q ∈ out) (kp kq : π)
+    (hkp : StartKey E p kp) (hkq : StartKey E q kq) (hlt : E.ops.lt kp kq = true) : p ∈ out :=
+  take_prefix_complete R fuel k s' out b h p q hq kp kq hkp hkq hlt (PS.HG.clean_of_all E.filter hnf p)
+
+/-- the statement of C03 for `UHeapSearch` in terms of the specification: in a prefix `l1 ++ q :: l2` of the
+    enumeration, every member of probability `U.probU` strictly larger than that of `q` is in `l1` — once a
+    program of probability x has been produced, every program of strictly larger probability has been -/
+theorem C03_HS_U_prefix_complete_probU (E : UHS.Env U Rat) (rank : UHS.UNT U → Nat) (hops : E.ops = UHS.probOps 0)
+    (R : RHyp E rank (fun v : Rat => 0 ≤ v)) (hnf : ∀ p, E.filter p = true) (hkeys : ∀ nt F, ((UHS.altsOf E nt F).map (·.1)).Nodup) (d0 : UHS.UNT U)
+    (hun : ∀ p, PS.U.unambiguousOn (E.G.toUCFG d0) p = true) (fuel k : Nat) (s' : UHS.St U Rat) (l1 l2 : List Prog)
+    (q p : Prog) (b : Bool) (h : UHS.take E fuel k (UHS.St.empty E.G) [] = some (s', l1 ++ q :: l2, b))
+    (hp : PS.U.genU (E.G.toUCFG d0) p = true)
+    (hlt : PS.U.probU (E.G.toUCFG d0) E.G.toTags q < PS.U.probU (E.G.toUCFG d0) E.G.toTags p) : p ∈ l1 := by
+  have hsound := ((sinv_empty E).take R.ohyp.ghyp k (by intro x hx; cases hx) h).2
+  have hsorted := C03_HS_U_sorted_probU E rank hops R hkeys d0 hun fuel k s' _ b h
+  obtain ⟨nt, w, hw, pr, hpr⟩ := (derStart_iff_genU E d0 p).mpr hp
+  obtain ⟨nt', w', hw', pr', hpr'⟩ := hsound q (by simp)
+  have e1 := startKey_probU E 0 hops hkeys d0 p (hun p) nt w pr hw hpr
+  have e2 := startKey_probU E 0 hops hkeys d0 q (hun q) nt' w' pr' hw' hpr'
+  have hmem : p ∈ l1 ++ q :: l2 := by
+    apply C03_HS_U_prefix_complete E rank _ R hnf fuel k s' _ b h p q (by simp) (E.ops.adjust pr w) (E.ops.adjust pr' w')
+      ⟨nt, w, pr, hw, hpr, rfl⟩ ⟨nt', w', pr', hw', hpr', rfl⟩
+    rw [hops]
+    show decide (pr' * w' < pr * w) = true
+    rw [← e1, ← e2]
+    exact decide_eq_true hlt
+  rcases List.mem_append.mp hmem with h1 | h2
+  · exact h1
+  · exfalso
+    have hpw := (List.pairwise_append.mp hsorted).2.1
+    rcases List.mem_cons.mp h2 with rfl | h3
+    · exact absurd hlt (Rat.lt_irrefl)
+    · have := (List.pairwise_cons.mp hpw).1 p h3
+      exact absurd hlt (Rat.not_lt.mpr this)
+
+/-- **the unambiguous bucket search: order by non-decreasing bucket tuple** (acyclic unambiguous grammars,
+    several start symbols, every fuel, every prefix): the tuples
+    `bucket of the program from its start symbol + Bucket(size).add_prob_uniform(start weight)` of the yielded
+    programs are non-decreasing for `Bucket.__lt__`; and (prefix completeness) a member whose tuple is `<`
+    the tuple of a yielded program has been yielded -/
+theorem C03_HS_U_bucket_sorted (E : UHS.Env U UHS.Bucket) (rank : UHS.UNT U → Nat) (size : Nat)
+    (R : RHyp E rank (fun b : UHS.Bucket => b.length = size)) (hnf : ∀ p, E.filter p = true) (fuel k : Nat) (s' : UHS.St U UHS.Bucket) (out : List Prog)
+    (b : Bool) (h : UHS.take E fuel k (UHS.St.empty E.G) [] = some (s', out, b)) :
+    out.Pairwise (fun p q => ∀ kp kq, StartKey E p kp → StartKey E q kq → E.ops.lt kq kp = false) ∧
+    (∀ p q, q ∈ out → ∀ kp kq, StartKey E p kp → StartKey E q kq → E.ops.lt kp kq = true → p ∈ out) :=
+  ⟨C03_HS_U_sorted E rank _ R fuel k s' out b h,
+   fun p q hq kp kq hkp hkq hlt => C03_HS_U_prefix_complete E rank _ R hnf fuel k s' out b h p q hq kp kq hkp hkq hlt⟩
+
+def uRank (nt : UHS.UNT Nat) : Nat := nt.2
+
+theorem uE_rhyp : RHyp uE uRank (fun v : Rat => 0 ≤ v) :=
+  rhyp_prob uE uRank rfl rfl (by decide) (by decide) (by decide) (by decide) (by decide) (by decide) (by decide)
+    (by decide +kernel) (by decide)
+
+example : ∀ k s' out b, UHS.take uE 60 k (UHS.St.empty uG) [] = some (s', out, b) →
+    out.Pairwise (fun p q => ∀ nt w pr nt' w' pr', UHS.startW uE nt = some w → HasPrio uE p nt pr →
+      UHS.startW uE nt' = some w' → HasPrio uE q nt' pr' → pr' * w' ≤ pr * w) :=
+  fun k s' out b h => C03_HS_U_sorted_prob uE uRank rfl uE_rhyp 60 k s' out b h
+
+theorem uE_unamb : ∀ p, PS.U.unambiguousOn (uG.toUCFG u0) p = true := by
+  intro p
+  -- bottom-up determinism + distinct alternative keys + distinct start symbols
+  exact unambiguous_of_budet uE u0 (budet_of_check uE (by decide)) (altKeys_of_check uE (by decide)) (by decide) p
+
+example : ∀ k s' out b, UHS.take uE 60 k (UHS.St.empty uG) [] = some (s', out, b) →
+    out.Pairwise (fun p q => PS.U.probU (uG.toUCFG u0) uG.toTags q ≤ PS.U.probU (uG.toUCFG u0) uG.toTags p) :=
+  fun k s' out b h => C03_HS_U_sorted_probU uE uRank rfl uE_rhyp (altKeys_of_check uE (by decide)) u0 uE_unamb 60 k s' out b h
+
+/-- after 6 of the 22 programs (a proper prefix: the generator has not stopped) -/
+example : ∀ s' l1 l2 q p b, UHS.take uE 60 6 (UHS.St.empty uG) [] = some (s', l1 ++ q :: l2, b) →
+    PS.U.genU (uG.toUCFG u0) p = true →
+    PS.U.probU (uG.toUCFG u0) uG.toTags q < PS.U.probU (uG.toUCFG u0) uG.toTags p → p ∈ l1 :=
+  fun s' l1 l2 q p b h hp hlt =>
+    C03_HS_U_prefix_complete_probU uE uRank rfl uE_rhyp (fun _ => rfl) (altKeys_of_check uE (by decide)) u0 uE_unamb 60 6 s' l1 l2 q p b h hp hlt
+
+/-- the probabilities of the 22 programs of the example in the order of the enumeration -/
+example : (UHS.take uE 60 6 (UHS.St.empty uG) []).map (fun r => r.2.1.map (PS.U.probU (uG.toUCFG u0) uG.toTags)) =
+    some [3/16, 9/64, 81/640, 27/320, 1/16, 3/64] := by decide +kernel
+
+def uEb : UHS.Env Nat UHS.Bucket := { G := uG, ops := UHS.bucketOps 3 false, filter := fun _ => true, kway := true }
+
+theorem uEb_rhyp : RHyp uEb uRank (fun b : UHS.Bucket => b.length = 3) :=
+  rhyp_bucket uEb uRank 3 rfl rfl (by decide) (by decide) (by decide) (by decide) (by decide) (by decide) (by decide)
+    (by decide)
+
+example : ∀ k s' out b, UHS.take uEb 60 k (UHS.St.empty uG) [] = some (s', out, b) →
+    out.Pairwise (fun p q => ∀ kp kq, StartKey uEb p kp → StartKey uEb q kq → uEb.ops.lt kq kp = false) :=
+  fun k s' out b h => (C03_HS_U_bucket_sorted uEb uRank 3 uEb_rhyp (fun _ => rfl) 60 k s' out b h).1
+
+example : (UHS.take uEb 60 30 (UHS.St.empty uG) []).map (fun r => (r.2.1.length, r.2.2)) = some (22, true) := by
+  decide +kernel
+end UMachine
 
 end PS.C03HS
